@@ -396,7 +396,8 @@ class EndProg:
 
     def join_line(self, state: TokenizerState) -> None:
         self.text += state.line[state.pos :]
-        self.contline += state.line
+        if not (self.contline and state.lnum == self.start[0]):  # the first line is already there
+            self.contline += state.line
 
     def reset(self, start: tuple[int, int]) -> None:
         self.start = start
